@@ -76,13 +76,18 @@ func runAsync(ch *simrt.Chooser, opt Options) RunResult {
 	var trace []string
 
 	out := simrt.Run(ch, cfg, func(s *simrt.Sim) {
+		width := 8
+		if s.Draw("width-class", 6) == 0 {
+			width = 40 // beyond any small batch size a chunking implementation might use
+			res.Counters["size-class:wide"]++
+		}
 		switch scen {
 		case 0, 1:
 			var c any
 			if scen == 0 {
-				c = genList(s, treeOpts{depth: 2, width: 8, spare: true})
+				c = genList(s, treeOpts{depth: 2, width: width, spare: true})
 			} else {
-				c = genObject(s, treeOpts{depth: 2, width: 8, spare: true})
+				c = genObject(s, treeOpts{depth: 2, width: width, spare: true, keys: wideKeys(width)})
 			}
 			nm := nameHeap(c)
 			before := canon(c, nm)
@@ -94,9 +99,9 @@ func runAsync(ch *simrt.Chooser, opt Options) RunResult {
 		case 2, 3:
 			var c any
 			if scen == 2 {
-				c = genList(s, treeOpts{depth: 2, width: 8, spare: true})
+				c = genList(s, treeOpts{depth: 2, width: width, spare: true})
 			} else {
-				c = genObject(s, treeOpts{depth: 2, width: 8, spare: true})
+				c = genObject(s, treeOpts{depth: 2, width: width, spare: true, keys: wideKeys(width)})
 			}
 			nm := nameHeap(c)
 			before := canon(c, nm)
@@ -1061,4 +1066,16 @@ func readers(s *simrt.Sim, top *asyncClient, sameCall bool, trace *[]string) []*
 	}
 	top.evals += len(roots)
 	return clients
+}
+
+// wideKeys returns a key pool large enough to fill an object of the given width.
+func wideKeys(width int) []string {
+	if width <= len(keyPool) {
+		return nil
+	}
+	out := append([]string(nil), keyPool...)
+	for i := 0; len(out) < 2*width; i++ {
+		out = append(out, "k"+strconv.Itoa(100+i))
+	}
+	return out
 }
